@@ -187,10 +187,10 @@ PROPS = {
         "suites": ["c17"],
         "level": "proof", "extra_modules": [{"module": "GeoProofs.Props.WriteBridge", "theorems": ["Geo.WriteBridge.write_unique", "Geo.WriteBridge.appendJSONFloat_bridge", "Geo.WriteBridge.appendJSONPoint_bridge", "Geo.WriteBridge.appendJSONExtra_bridge", "Geo.WriteBridge.appendJSONExtra_panic_bridge", "Geo.WriteBridge.appendJSONSeries_bridge", "Geo.WriteBridge.Point_bridge", "Geo.WriteBridge.SimplePoint_bridge", "Geo.WriteBridge.LineString_bridge", "Geo.WriteBridge.Polygon_bridge", "Geo.WriteBridge.Rect_bridge", "Geo.WriteBridge.MultiPoint_bridge", "Geo.WriteBridge.MultiLineString_bridge", "Geo.WriteBridge.MultiPolygon_bridge", "Geo.WriteBridge.GeometryCollection_bridge", "Geo.WriteBridge.FeatureCollection_bridge", "Geo.WriteBridge.Feature_bridge", "Geo.WriteBridge.Circle_bridge", "Geo.WriteBridge.collection_bridge", "Geo.WriteBridge.appendJSON_bridge"]}],
         "translators": [{"name": "writers", "out": "WriteGen.lean"}],
-        "proof_module": "GeoProofs.Props.C17", "theorems": ["Geo.render_is_json", "Geo.write_is_json", "Geo.write_type", "Geo.write_coords_depth", "Geo.nonfinite_written_as_null", "Geo.append_prefix", "Geo.featureExtra_ok", "Geo.featureExtra_writeOK", "Geo.exFeature_writeOK", "Geo.DispatchFacts.dispatch_table_pinned", "Geo.DispatchFacts.json_wrappers"],
-        "translators": [{"name": "dispatch", "out": "Dispatch.lean"}],
+        "proof_module": "GeoProofs.Props.C17", "theorems": ["Geo.render_is_json", "Geo.write_is_json", "Geo.write_type", "Geo.write_coords_depth", "Geo.nonfinite_written_as_null", "Geo.append_prefix", "Geo.featureExtra_ok", "Geo.featureExtra_writeOK", "Geo.exFeature_writeOK"],
+        "translators": [],
         "trivial_sigs": set(),
-        "claim": "Proof on the model (Lean 4): every object satisfying WriteOK is written as text of the RFC 8259 object grammar with the right type name and coordinate depth, non-finite ordinates as null, NewFeature's member sanitising keeps that invariant; JSON/String/MarshalJSON wrappers pinned from the source. Tie: byte-exact correspondence on constructor-built objects with special floats and member texts; aliasing of AppendJSON(prefix) checked on the implementation.",
+        "claim": "Proof on the model (Lean 4): every object satisfying WriteOK is written as text of the RFC 8259 object grammar with the right type name and coordinate depth, non-finite ordinates as null, NewFeature's member sanitising keeps that invariant; every AppendJSON writer and helper is regenerated from the source and proved equal to the model's writer (WriteBridge); the JSON/String/MarshalJSON wrappers are checked dynamically (same bytes from all entry points, also after other objects were serialised). Tie: byte-exact correspondence on constructor-built objects with special floats and member texts; aliasing of AppendJSON(prefix) checked on the implementation.",
         "rule": "objects from every public constructor with special floats (NaN, +-Inf, -0, extremes, denormals), feature member texts (objects, "
                 "blank objects, non-objects, reserved key 'feature'), nested collections: JSON()/String()/MarshalJSON()/AppendJSON(nil) equal, "
                 "AppendJSON(prefix) with three spare capacities, encoding/json.Valid, type and coordinate depth; bytes compared with the model's writer",
